@@ -53,8 +53,8 @@ type server struct {
 type scenario struct {
 	Servers []server `json:"servers"`
 	Bcast   bool     `json:"broadcast_flag"`
-	Cfg     int      `json:"cfg"` // client logging configuration (cli.LogOpts4)
-	HW      int      `json:"hw,omitempty"` // which hardware address the client has (hwAddrs): 6, 8 (EUI-64), 16 octets, 1 octet
+	Cfg     int      `json:"cfg"`                 // client logging configuration (cli.LogOpts4)
+	HW      int      `json:"hw,omitempty"`        // which hardware address the client has (hwAddrs): 6, 8 (EUI-64), 16 octets, 1 octet
 	Unicast bool     `json:"unicast_server_addr"` // the client is configured with WithServerAddr(<unicast>): it changes where the client sends, nothing else
 }
 
@@ -295,6 +295,7 @@ func (w *world) datagram(sv *server, si int, kind string, req *ref4.P4) (*inject
 }
 
 type outcome struct {
+	reqTook                                       time.Duration // virtual time Request() took
 	lease                                         *nclient4.Lease
 	reqErr                                        error
 	renewed                                       *nclient4.Lease
@@ -413,7 +414,9 @@ func run(t *testing.T, sc scenario) (o outcome) {
 			mods = append(mods, dhcpv4.WithBroadcast(true))
 		}
 		mods = append(mods, dhcpv4.WithOption(dhcpv4.OptHostName("verif-host")), dhcpv4.WithOption(dhcpv4.OptClassIdentifier("verif-class")), dhcpv4.WithOption(dhcpv4.OptGeneric(dhcpv4.GenericOptionCode(230), []byte{1, 2, 3})))
+		reqStart := time.Now()
 		o.lease, o.reqErr = c.Request(ctx, mods...)
+		o.reqTook = time.Since(reqStart)
 		o.reqRetSeq = sconn.NextSeq()
 		if o.lease != nil {
 			time.Sleep(1500 * time.Millisecond) // stale replies of the first exchange have drained
@@ -473,6 +476,12 @@ func judge(r *mon.Rec, t *testing.T, sc scenario) {
 			bad("datagram-never-read", "datagram %d (kind %s) was still unread when the client was closed: the client had stopped reading", in.nonce, in.kind)
 			return
 		}
+	}
+	// an exchange that fails for want of an answer has waited for one through all its tries (T + 2T with two tries), however
+	// many replies it had to ignore meanwhile
+	if errors.Is(o.reqErr, nclient4.ErrNoResponse) && o.reqTook < 3*T {
+		bad("gave-up-early", "Request failed with the no-response error after %v; two tries of %v and %v take %v", o.reqTook, T, 2*T, 3*T)
+		return
 	}
 	// classify transmissions
 	var discovers, requests, renews, releases []txrec
